@@ -43,6 +43,9 @@ def cases(rng, tier):
         degs = [{0: 0, 1: 1, 2: 3, 3: 7}[(hb >> s) & 3] for s in (0, 2, 4, 6)]
         tr = G.rand_traj(rng, nseg=2, degs=degs)
         yield ("traj f %s %s" % (hexs(G.encode(tr)), queries(rng, tr, 8, KINDS)), "hdr-all")
+        # ... and the shortest blocks there are: a single segment of each shape (the bare hold is 12 bytes)
+        tr = G.rand_traj(rng, nseg=1, degs=degs)
+        yield ("traj f %s %s,d00000000" % (hexs(G.encode(tr)), queries(rng, tr, 5, KINDS)), "hdr-all-single")
     # the object made by sb_trajectory_init_empty (on memory full of garbage)
     yield ("traj f empty p00000000,p3f800000,pbf800000,p7f800000,d00000000", "init-empty")
     yield ("traj h empty p3f800000,v3f800000,a3f800000,d00000000,p00000000", "init-empty")
